@@ -67,6 +67,7 @@ Definition mon_res (sent : list ev) (pstat : nat) (mf : mon * list N) (o : obs) 
   | (KSend, VOk) => if m_prev m then (m, f ++ [3%N]) else (m, f)
   | (KSend, EDisc _) => if m_prev m then (set_told m, f) else (set_told m, f ++ [3%N])
   | (KClose, VOk) => if (pstat =? 3) || (pstat =? 4) then (m, f) else (m, f ++ [6%N])
+  | (KClose, EValueErr) => (m, f)        (* a rejected close(): no effect *)
   | _ => (m, f ++ [8%N])
   end.
 
